@@ -125,6 +125,10 @@ func renderHelper(s *Summary, c *renderCase, v any) {
 			} else { // a reader that hands out its last chunk together with io.EOF (like net/http bodies)
 				cx.Stream(c.Status, "image/custom", iotest.DataErrReader(bytes.NewReader(asBytes(v))))
 			}
+		case "MustRender":
+			cx.MustRender(c.Status, v, render.JSONRenderer{})
+		case "ShouldRender":
+			retErr = cx.ShouldRender(c.Status, v, render.JSONRenderer{})
 		case "NoContent":
 			cx.NoContent()
 		case "Redirect":
